@@ -57,7 +57,10 @@ Inductive case :=
         (manual : option (list Z))     (* Some s: Query.PageState(s) was called (manual paging) *)
         (pf : Z * Z)                   (* Query.Prefetch(num/den) *)
         (ncalls : nat)                 (* consumer calls made (consumers 0-2) *)
-        (retries : nat)                (* > 0: Query.RetryPolicy(retry on the same host, at most this many times per page) *)
+        (retries : nat)                (* > 0: Query.RetryPolicy(retry on the same host, at most this many times per page).
+                                          0 also stands for a policy that is consulted but answers Ignore, Rethrow or - with the
+                                          single host used up - RetryNextHost (query_executor.go:170-185): none of them executes
+                                          the query again, the failed Iter (its error) is what the iterator gets, as with no policy *)
         (script : list (reply Z Z))
         (rows : list Z)                (* row ids the consumer saw *)
         (tags : option (list Z))       (* consumers 0 and 2: the metadata tag of Iter.Columns() after each row *)
